@@ -16,49 +16,49 @@ import (
 // reported as notes only.
 
 type FlowOpts struct {
-	Net          NetOpts
-	PauseTimeout time.Duration
-	RWMin, RWMax time.Duration
-	ALOMax       int
-	EOMax        int
-	ReadBuf      int
-	Clean        bool
-	KeepAlive    uint16
-	Publishers   int
-	PerPub       int
-	Q2           int // permille of persisted publishes at exactly-once level
-	Retain       int // permille
-	BigPayload   int // permille of payloads in the KiB range
-	BreakW       int // weight of the environment action "break connection"
-	Budget       int
-	SelectMode   uint32
-	Backoff      bool // reader uses ReadBackoff
-	ClientID     string
-	Requesters   int // tasks issuing Subscribe/Unsubscribe/Ping/Publish
-	PerReq       int
-	Inbound      int // application messages the broker sends
-	InQ          [3]int
-	StopAt       int // process stop at this many completed storage operations (0: none)
-	NoTick       bool // simulated time passes only when nothing else can happen
-	Generations  int  // incarnations (1: no restart)
+	Net                NetOpts
+	PauseTimeout       time.Duration
+	RWMin, RWMax       time.Duration
+	ALOMax             int
+	EOMax              int
+	ReadBuf            int
+	Clean              bool
+	KeepAlive          uint16
+	Publishers         int
+	PerPub             int
+	Q2                 int // permille of persisted publishes at exactly-once level
+	Retain             int // permille
+	BigPayload         int // permille of payloads in the KiB range
+	BreakW             int // weight of the environment action "break connection"
+	Budget             int
+	SelectMode         uint32
+	Backoff            bool // reader uses ReadBackoff
+	ClientID           string
+	Requesters         int // tasks issuing Subscribe/Unsubscribe/Ping/Publish
+	PerReq             int
+	Inbound            int // application messages the broker sends
+	InQ                [3]int
+	StopAt             int  // process stop at this many completed storage operations (0: none)
+	NoTick             bool // simulated time passes only when nothing else can happen
+	Generations        int  // incarnations (1: no restart)
 	FaultFreeAfterStop bool
-	StopW        int // weight of the environment action "stop the process"
-	Constructed  bool // the first incarnation is replaced by a constructed disk image (identifier wrap-around)
-	FSStore      bool // the session runs on the FileSystem store over the simulated os
-	FSStopCalls  int  // the kill lands within this many system calls of the incarnation
-	HostileN     int // hostile injections per run
-	HostileHandshake int // permille of CONNECTs answered by a hostile reply
-	StopWhenPublished bool // the incarnation stops (at rest) once every publish call has returned
-	Closers      int    // Close/Disconnect invocations
-	CloserMix    [4]int // Close, Disconnect(nil), Disconnect(open quit), Disconnect(closed quit)
-	CloserW      int    // weight of starting the first closer
-	CloserAtStep int    // sweep: the first closer starts at this step
-	ReqMix       [rkKinds]int
-	QuitMix      [4]int
-	FailFilter   int // permille of subscribe filters the broker fails
-	Disk         DiskOpts
-	LongTopic    int    // permille of inbound messages with a long topic
-	InSizeMix    [4]int // small / around the read buffer / several buffers / empty
+	StopW              int    // weight of the environment action "stop the process"
+	Constructed        bool   // the first incarnation is replaced by a constructed disk image (identifier wrap-around)
+	FSStore            bool   // the session runs on the FileSystem store over the simulated os
+	FSStopCalls        int    // the kill lands within this many system calls of the incarnation
+	HostileN           int    // hostile injections per run
+	HostileHandshake   int    // permille of CONNECTs answered by a hostile reply
+	StopWhenPublished  bool   // the incarnation stops (at rest) once every publish call has returned
+	Closers            int    // Close/Disconnect invocations
+	CloserMix          [4]int // Close, Disconnect(nil), Disconnect(open quit), Disconnect(closed quit)
+	CloserW            int    // weight of starting the first closer
+	CloserAtStep       int    // sweep: the first closer starts at this step
+	ReqMix             [rkKinds]int
+	QuitMix            [4]int
+	FailFilter         int // permille of subscribe filters the broker fails
+	Disk               DiskOpts
+	LongTopic          int    // permille of inbound messages with a long topic
+	InSizeMix          [4]int // small / around the read buffer / several buffers / empty
 }
 
 type Pub struct {
@@ -87,10 +87,12 @@ type Pub struct {
 	Deleted  bool
 	DelStep  int
 	// wire
-	FirstWire  int // step of first complete PUBLISH on any connection (0 none)
-	WireConns  []int
+	FirstWire   int // step of first complete PUBLISH on any connection (0 none)
+	WireConns   []int
 	OnlineAtRet bool
 	NetParks    int  // network waits of the calling task during the call
+	PrevHolder  *Pub // the publish that held this identifier before
+	settled     int  // step at which it was seen done in every respect (0: not yet)
 	Zombie      bool // the call returned after its process had been stopped
 	Resumed     bool // stored at a stop and adopted by a later incarnation
 }
@@ -98,12 +100,13 @@ type Pub struct {
 func (p *Pub) Accepted() bool { return p.Ret != 0 && p.Err == nil }
 
 type Flow struct {
-	W    *World
-	O    FlowOpts
-	S    *Sim
-	C    *mqtt.Client
-	Cfg  mqtt.Config
-	Pubs []*Pub
+	W       *World
+	O       FlowOpts
+	S       *Sim
+	C       *mqtt.Client
+	Cfg     mqtt.Config
+	Pubs    []*Pub
+	Active  []*Pub // publishes the per-step monitors still have to look at
 	byTopic map[string]*Pub
 	byID    map[uint16]*Pub
 	handed  map[uint32][]HandedRef
@@ -117,52 +120,53 @@ type Flow struct {
 	QStartTime   time.Duration
 	FaultSteps   int
 
-	lastOnline   bool
-	sigKnown     bool // the signals could be observed at the last step boundary
-	OnlineSteps  []int
-	OnlineConn   int // connection id of the last Online observation (-1 none)
-	ReaderErrs   []error
+	lastOnline     bool
+	sigKnown       bool // the signals could be observed at the last step boundary
+	OnlineSteps    []int
+	OnlineConn     int // connection id of the last Online observation (-1 none)
+	ReaderErrs     []error
 	ReaderErrSteps []int
-	Resumed      [3]int // transfers resumed by AdoptSession in the current incarnation, per level
-	adopted      map[int]bool
-	ReaderClosed bool
-	FatalSetup   error
+	Resumed        [3]int // transfers resumed by AdoptSession in the current incarnation, per level
+	adopted        map[int]bool
+	ReaderClosed   bool
+	FatalSetup     error
 
-	Recvs        []*Recv
+	Recvs         []*Recv
 	StrictInbound bool // no connection loss in this run: every message sent must be returned
-	Backoffs     []BackoffRec
-	RSInvokes    int
-	RSReturns    int
-	LastRSReturn int
-	InSent       int // application messages the broker has been given so far
-	Owned        map[uint16]int // inbound exactly-once identifiers whose marker is stored -> step of the Save
-	FS         *SimFS  // set when the session runs on the FileSystem store
-	fsCallsInit int
-	fsInFlight map[uint64]*DiskOp // Save/Delete in progress on the FileSystem store, per goroutine
-	Damage     []DamageRec
-	Hostiles   []*HostileInj
-	HostileLeft int
-	ReaderIn   string // API call the reader task is in
-	ReaderInEnd string // ... when the scheduler loop ended
-	LastReadTime map[int]time.Duration
+	Backoffs      []BackoffRec
+	RSInvokes     int
+	RSReturns     int
+	LastRSReturn  int
+	InSent        int            // application messages the broker has been given so far
+	Owned         map[uint16]int // inbound exactly-once identifiers whose marker is stored -> step of the Save
+	FS            *SimFS         // set when the session runs on the FileSystem store
+	fsCallsInit   int
+	fsInFlight    map[uint64]*DiskOp // Save/Delete in progress on the FileSystem store, per goroutine
+	Damage        []DamageRec
+	Hostiles      []*HostileInj
+	HostileLeft   int
+	ReaderIn      string // API call the reader task is in
+	ReaderInEnd   string // ... when the scheduler loop ended
+	LastReadTime  map[int]time.Duration
 	HoldFinalAcks bool
-	LoadDamage int // Load results altered in flight
-	lastSeq    uint64
-	Closers    []*Closer
-	ClosedAt   int // step at which the first Close/Disconnect returned
-	ClosedTime time.Duration
-	ProbeDone  bool
-	LeakedLib  int
-	LeakSample string
-	Stops      []*StopInfo
-	Carry      map[[2]int]bool // (incarnation, level): transfers of that level were pending at its adoption
-	Gen1Ops    int // storage operations of the first incarnation after InitSession
-	AdoptWarn  map[int][]error
-	AdoptFatal error
-	DamagedGen map[int]bool // incarnations adopted from a deliberately damaged image
-	Mon        []Monitor
-	BetweenGens func(f *Flow, gen int) // hook between a stop and the adoption (image damage)
-	Refuse     func(n int) byte
+	LoadDamage    int // Load results altered in flight
+	lastSeq       uint64
+	Closers       []*Closer
+	ClosedAt      int // step at which the first Close/Disconnect returned
+	ClosedTime    time.Duration
+	ProbeDone     bool
+	LeakedLib     int
+	LeakSample    string
+	Stops         []*StopInfo
+	Carry         map[[2]int]bool // (incarnation, level): transfers of that level were pending at its adoption
+	Gen1Ops       int             // storage operations of the first incarnation after InitSession
+	AdoptWarn     map[int][]error
+	AdoptFatal    error
+	DamagedGen    map[int]bool // incarnations adopted from a deliberately damaged image
+	RetryErrMax   bool         // publisher tasks wait for capacity instead of moving on (long runs)
+	Mon           []Monitor
+	BetweenGens   func(f *Flow, gen int) // hook between a stop and the adoption (image damage)
+	Refuse        func(n int) byte
 }
 
 // Monitor is an oracle plugged into the flow.
@@ -258,6 +262,9 @@ func (f *Flow) OnDisk(op *DiskOp) {
 					pb.Saved = true
 				}
 				pb.SaveStep = op.Step
+				if old := f.byID[p.ID]; old != nil && old != pb {
+					pb.PrevHolder = old
+				}
 				f.byID[p.ID] = pb
 			}
 		case PUBREL:
@@ -513,12 +520,17 @@ func trunc(s string, n int) string {
 func (f *Flow) pubTask(s *Sim, name string, n int) {
 	w := f.W
 	defer func() { f.pubTasksLive-- }()
+	retries := 0
 	for i := 0; i < n; i++ {
 		s.Pause("pub")
 		if s.dead {
 			return
 		}
 		topic := fmt.Sprintf("t/%s/%d/g%d", name, i, w.Gen)
+		if retries > 0 {
+			// (no topic may be a substring of another: wire logs are searched for them)
+			topic = fmt.Sprintf("t/%s/r%d/%d/g%d", name, retries, i, w.Gen)
+		}
 		pb := &Pub{Idx: len(f.Pubs), Task: name, Topic: topic, Gen: w.Gen}
 		pb.QoS = 1
 		if w.Tape.Flip("q2", f.O.Q2) {
@@ -527,6 +539,7 @@ func (f *Flow) pubTask(s *Sim, name string, n int) {
 		pb.Retain = w.Tape.Flip("retain", f.O.Retain)
 		pb.Payload = payloadFor(w.Tape, topic, f.O.BigPayload, false)
 		f.Pubs = append(f.Pubs, pb)
+		f.Active = append(f.Active, pb)
 		f.byTopic[topic] = pb
 		pb.Invoke = w.Steps
 		pb.InvTime = s.Now()
@@ -552,15 +565,61 @@ func (f *Flow) pubTask(s *Sim, name string, n int) {
 		pb.NetParks = s.netParks[name] - parks0
 		pb.Zombie = s.dead
 		w.Ev("api", pb.Idx, "%s publish #%d -> %v", name, pb.Idx, err)
+		if f.RetryErrMax && errors.Is(err, mqtt.ErrMax) {
+			// wait for capacity (at most a bounded number of steps)
+			for k := 0; k < 200 && !s.dead && f.inflight(pb.QoS) >= effMax(map[byte]int{1: f.O.ALOMax, 2: f.O.EOMax}[pb.QoS]); k++ {
+				s.Pause("await-capacity")
+			}
+			i--
+			retries++
+			continue
+		}
+		if pb.ID != 0 && seqOf(pb.ID) == 0 && pb.Idx > 100 {
+			w.Probe("identifier_wrapped")
+		}
 		if err != nil && !s.dead && !errors.Is(err, mqtt.ErrMax) && !errors.Is(err, ErrDiskInjected) && !errors.Is(err, mqtt.ErrClosed) {
 			w.Violate("C14", "publish-error-class", "persisted", "persisted publish returned %v", err)
 		}
 	}
 }
 
+// compactActive retires publishes that have been done in every respect for a
+// while (long runs: the per-step monitors must not rescan thousands of
+// finished transfers).
+func (f *Flow) compactActive() {
+	if len(f.Active) < 64 {
+		return
+	}
+	st := f.W.Steps
+	k := 0
+	for _, pb := range f.Active {
+		done := pb.Ret != 0 && (!pb.Accepted() || (pb.ExClosed && pb.Deleted))
+		if done && pb.settled == 0 {
+			pb.settled = st
+		}
+		if done && st-pb.settled > 3000 {
+			continue
+		}
+		f.Active[k] = pb
+		k++
+	}
+	f.Active = f.Active[:k]
+}
+
+func (f *Flow) inflight(qos byte) int {
+	n := 0
+	for i := len(f.Pubs) - 1; i >= 0 && i > len(f.Pubs)-200; i-- {
+		pb := f.Pubs[i]
+		if pb.QoS == qos && pb.Accepted() && !pb.ExClosed {
+			n++
+		}
+	}
+	return n
+}
+
 // pollExchanges drains exchange channels without blocking.
 func (f *Flow) pollExchanges() {
-	for _, pb := range f.Pubs {
+	for _, pb := range f.Active {
 		if pb.Ex == nil || pb.ExClosed {
 			continue
 		}
@@ -671,6 +730,7 @@ func (f *Flow) stepHook() {
 	for _, m := range f.Mon {
 		m.Step(f)
 	}
+	f.compactActive()
 	if f.pubTasksLive == 0 && f.reqTasksLive == 0 && f.InSent >= f.O.Inbound && f.QStartStep == 0 && f.quiesceReady() {
 		f.QStartStep = w.Steps
 		f.QStartTime = s.Now()
